@@ -69,6 +69,19 @@ Theorem C19_export_statements_exact : forall t,
 Proof. exact export_statements_exact. Qed.
 Print Assumptions C19_export_statements_exact.
 
+(* Re-execution at export time: _per_statement_exceptions yields exactly one entry per statement,
+   so whichever statements raise while the exporter re-executes the test (they are only wrapped in
+   pytest.raises or marked xfail), the written function is the complete export; a shorter list
+   would truncate it (zip without strict). *)
+Theorem C19_export_reexec_complete : forall t raised, export_reexec t raised = export t.
+Proof. exact export_reexec_complete. Qed.
+Print Assumptions C19_export_reexec_complete.
+
+Theorem C19_short_exception_list_truncates : exists l excs,
+  length excs < length l /\ length (build_body l excs) < length (export_body l).
+Proof. exact build_body_short_truncates. Qed.
+Print Assumptions C19_short_exception_list_truncates.
+
 (* The code before the fix violated the property (finding; witness kept in the corpus). *)
 Theorem C19_unfixed_ruv_refuted : exists t,
   WF t /\ ascoped [] (stmts t) /\
